@@ -411,6 +411,12 @@ func vfC10Run(t *testing.T, cs vfC10Case, out *vfC10Out, isKnown func(string) bo
 		// own-join keys of attempts whose subscribe was still in flight when an unsubscribe was issued: the woken
 		// unsubscribe and the subscriber's join publishing then run concurrently (only the Go scheduler orders them)
 		racedJoin := map[string]bool{}
+		var prodMu sync.Mutex // operation goroutines of the subject can finish concurrently
+		setProd := func(k string, p *vfC10Prod) {
+			prodMu.Lock()
+			prods[k] = p
+			prodMu.Unlock()
+		}
 		// With per-channel batching the moment a push is handed to the connection's queue is the channel writer's
 		// flush, not the producing operation: record it by wrapping the (unexported) flush function.
 		var flushMu sync.Mutex
@@ -608,7 +614,7 @@ func vfC10Run(t *testing.T, cs vfC10Case, out *vfC10Out, isKnown func(string) bo
 							if c := cmds[id]; c != nil {
 								c.done = m
 							}
-							prods[ownJoin] = &vfC10Prod{kind: "join", phase: vfC10PhEst, lag: lag, endSeq: m}
+							setProd(ownJoin, &vfC10Prod{kind: "join", phase: vfC10PhEst, lag: lag, endSeq: m})
 							connectBusy.Store(false)
 						}()
 						afterLaunch(gates...)
@@ -634,7 +640,7 @@ func vfC10Run(t *testing.T, cs vfC10Case, out *vfC10Out, isKnown func(string) bo
 						conn.Cmd(&protocol.Command{Id: id, Subscribe: &protocol.SubscribeRequest{Channel: ch}})
 						m := mark()
 						cmd.done = m
-						prods[ownJoin] = &vfC10Prod{kind: "join", phase: vfC10PhEst, lag: lag, endSeq: m}
+						setProd(ownJoin, &vfC10Prod{kind: "join", phase: vfC10PhEst, lag: lag, endSeq: m})
 						subBusy.Store(false)
 					}()
 				} else {
@@ -650,7 +656,7 @@ func vfC10Run(t *testing.T, cs vfC10Case, out *vfC10Out, isKnown func(string) bo
 						if err == nil && !closedNow() {
 							srvSubDone = append(srvSubDone, m)
 						}
-						prods[ownJoin] = &vfC10Prod{kind: "join", phase: vfC10PhEst, lag: lag, endSeq: m}
+						setProd(ownJoin, &vfC10Prod{kind: "join", phase: vfC10PhEst, lag: lag, endSeq: m})
 						subBusy.Store(false)
 					}()
 					if logWindow {
@@ -726,12 +732,16 @@ func vfC10Run(t *testing.T, cs vfC10Case, out *vfC10Out, isKnown func(string) bo
 				unsubByServer = s.ByServer || cs.Uni
 				if s.ByServer || cs.Uni {
 					issued := mark()
+					ownLeave := fmt.Sprintf("leave:%d", curTag.Load())
 					go func() {
 						conn.Client.Unsubscribe(ch)
+						m := mark()
 						if !closedNow() {
-							srvUnsubDone = append(srvUnsubDone, mark())
+							srvUnsubDone = append(srvUnsubDone, m)
 							srvUnsubIssue = append(srvUnsubIssue, issued)
 						}
+						// the old subscription's leave reaches the subject itself only when a re-subscription was accepted meanwhile
+						setProd(ownLeave, &vfC10Prod{kind: "leave", phase: vfC10PhEst, endSeq: m})
 						unsubBusy.Store(false)
 					}()
 				} else {
@@ -1044,6 +1054,10 @@ func vfC10Run(t *testing.T, cs vfC10Case, out *vfC10Out, isKnown func(string) bo
 						ri, _ := vfC10Scan(rep, rskip)
 						if ri < 0 {
 							break
+						}
+						if u := staleEnd(rep, rskip, ri); u >= 0 {
+							rskip[u] = true // separately classified (stale unsubscribe push); judged again after the repair
+							continue
 						}
 						if classifyAB(rep[ri]) == "" && !racedJoin[rep[ri].prodKey] {
 							clean = false
